@@ -181,6 +181,54 @@ def prep_oracle(rng):
     return None
 
 
+def first_call_width_oracle(rng):
+    """modules whose hyper-parameters fix the admissible data width at construction (ART2A: alpha <= 1/sqrt(width);
+    BayesianART: cov_init is width x width; GaussianART: sigma_init has one entry per column): a wrong-width matrix at
+    the FIRST call is rejected without any state change, and valid data is accepted afterwards"""
+    import artlib
+    cls = rng.choice(["ART2A", "Bayes", "Gauss"])
+    d = rng.choice([2, 3])
+    if cls == "ART2A":
+        alpha = rng.choice([0.5, 0.6, 0.7])
+        mk = lambda: artlib.ART2A(rho=0.5, alpha=alpha, beta=0.5)
+        wbad = {0.5: 5, 0.6: 3, 0.7: 3}[alpha] + rng.randrange(0, 2)
+        d = 2 if alpha < 0.7 else 1
+        d = max(1, min(d, int(1 / alpha ** 2)))
+    elif cls == "Bayes":
+        mk = lambda: artlib.BayesianART(rho=0.5, cov_init=0.1 * np.eye(d))
+        wbad = d + rng.choice([-1, 1, 2])
+    else:
+        mk = lambda: artlib.GaussianART(rho=0.1, sigma_init=0.5 * np.ones(d))
+        wbad = d + rng.choice([-1, 1, 2])
+    n = rng.randrange(2, 6)
+    good = np.array([[rng.randrange(1, 9) / 8 for _ in range(d)] for _ in range(n)])
+    bad = np.array([[rng.randrange(1, 9) / 8 for _ in range(wbad)] for _ in range(n)])
+    call = rng.choice(["fit", "partial_fit"])
+    est = mk()
+    rep = {"estimator": cls, "params": repr(est.get_params())[:200], "bad": bad.tolist(), "good": good.tolist(), "call": call}
+    before = zoo.canon(est)
+    try:
+        with np.errstate(all="ignore"), C.time_limit(10):
+            getattr(est, call)(bad)
+        return {"signature": f"{cls}/wrong-width-accepted", "text": f"{cls}.{call} accepted a {wbad}-column matrix although its hyper-parameters are for {d} columns", "replay": rep}
+    except Exception:
+        after = zoo.canon(est)
+        if before != after:
+            import c06
+            return {"signature": f"{cls}.{call}/rejected-call-changed-state", "text": f"{cls}.{call} rejected the wrong-width matrix but changed {c06.first_diff(before, after)}", "replay": rep}
+    try:
+        with np.errstate(all="ignore"), C.time_limit(10):
+            getattr(est, call)(good)
+    except Exception as e:
+        try:
+            with np.errstate(all="ignore"), C.time_limit(10):
+                getattr(mk(), call)(good)
+        except Exception:
+            return None
+        return {"signature": f"{cls}.{call}/valid-data-rejected-after-rejected-call", "text": f"after the rejected call {cls}.{call} rejects valid data ({type(e).__name__}) that a fresh estimator accepts", "replay": rep}
+    return None
+
+
 def reject_oracle_compound(rng):
     """invalid batches on trained compound estimators: error before any state change"""
     name = rng.choice(["Fusion", "DualVigilance", "Topo", "CVIART", "iCVIFuzzy"])
@@ -245,6 +293,9 @@ def main():
         if r:
             fails.append(r)
         r = reject_oracle_compound(rng)
+        if r:
+            fails.append(r)
+        r = first_call_width_oracle(rng)
         if r:
             fails.append(r)
     codes, bad = flow.coq_corr("C18", "RunBase", strs, shard=150)
